@@ -65,6 +65,35 @@ def pairing(chk):
                 chk.bad("C13.R1", f"{mi.rel}:{ef[2]}", "Calibration.__enter__", f"handle of {U(ef[1].func)} dropped", f"the handle returned by {U(ef[1].func)} is not kept", "any calibration: the global hook stays registered for the rest of the process")
         ret = p.end[1]
         chk.require("C13.R1", f"{mi.rel}:{p.end[2]}", p.end[0] in ("fall", "return"), "__enter__ completes without raising", "Calibration.__enter__", "enter completes", "any calibration")
+    # handles kept in a container: it must belong to the instance (a class-level list is shared by every Calibration object)
+    shared = {}
+    for n_ in ci.node.body:
+        if isinstance(n_, ast.Assign) and isinstance(n_.value, (ast.List, ast.Dict, ast.Set)) or (isinstance(n_, ast.Assign) and isinstance(n_.value, ast.Call) and U(n_.value.func) in ("list", "dict", "set")):
+            for t_ in n_.targets:
+                if isinstance(t_, ast.Name):
+                    shared[t_.id] = n_.lineno
+    init = repo.method(ci, "__init__")
+    rebound = set()
+    for fn_ in [x for x in (init[1] if init else None, enter) if x is not None]:
+        for nd in ast.walk(fn_):
+            if isinstance(nd, ast.Assign):
+                for t_ in nd.targets:
+                    if isinstance(t_, ast.Attribute) and U(t_.value) == "self":
+                        rebound.add(t_.attr)
+    for p in paths_of(enter):
+        for ef in p.effects:
+            if ef[0] == "expr" and isinstance(ef[1], ast.Call) and isinstance(ef[1].func, ast.Attribute) and ef[1].func.attr in ("append", "add", "extend", "__setitem__") \
+                    and isinstance(ef[1].func.value, ast.Attribute) and U(ef[1].func.value.value) == "self" and any(isinstance(x, ast.Call) and U(x.func) in HOOK_REGISTRARS for a_ in ef[1].args for x in ast.walk(a_)):
+                cont = ef[1].func.value.attr
+                if cont in shared and cont not in rebound:
+                    chk.bad("C13.R1", f"{mi.rel}:{ef[2]}", "Calibration.__enter__", f"hook handles kept in the class-level container {cont}", f"__enter__ stores its hook handles in `self.{cont}`, a container created once in the class body (line {shared[cont]}) and shared by every Calibration object; __exit__ of one context then removes the hooks of another",
+                            "two distinct Calibration objects, one nested in the other: leaving the inner one removes the outer one's hooks, so the registries are not restored to their content at entry and the outer context stops calibrating")
+                    handles[cont] = "shared container"
+                    handles[cont + "#2"] = "shared container"
+                else:
+                    n_reg += 1
+                    handles.setdefault(cont, "container")
+                    handles.setdefault(cont + f"#{n_reg}", "container")
     chk.floor("C13.R1", len(handles), 2, "global hook handles stored on entry")
     eparams = positional_params(exit_)[1:]
     for p in paths_of(exit_):
